@@ -175,6 +175,9 @@ def run(ctx):
                                       "displacement of %d whole cells (dz=%r, v=%r, dt=%r) without twist is not a circular shift (dev %g)" % (
                                           k, dz, float(vs[vi]), dt, dev), {"space": sp.key(), "nz": nz, "dz": dz, "v": float(vs[vi]), "dt": dt})
     ctx.extra["whole_cell_shifts_on_non_dyadic_steps"] = nshift
+    # the grid-level entry point applies that step to every local (r, v) surface with the surface's own indices, on every process grid
+    from harness import gridops
+    ctx.extra["grid_level_blocks_compared"] = gridops.check_grid_level(ctx, rng, "flux")
     ctx.extra["cases"] = ncase
     ctx.extra["max_abs_deviation"] = worst
     ctx.traces = ncase
